@@ -47,6 +47,7 @@ def check(ctx):
     ctx.run(r06_8, m)
     ctx.run(r06_9, m)
     ctx.run(r06_10, m)
+    ctx.run(r06_11, m)
     ctx.not_decided += [
         "that articulation points / biconnected components / the DFS order are the true ones on every graph (C15)",
         "independence from set/dict iteration order inside biccs (hash randomisation) beyond the orientation fix-up",
@@ -600,3 +601,102 @@ def r06_10(ctx, m):
             ctx.violated("R06.10", dec.where(c), f"a bubble is entered into the collapsed graph under `{norm(a)[:50]}`, the bare index: in a graph whose segments are named 0, 1, 2, ... it coincides with an articulation point, the two are merged and the chain is no longer recognised (the chromosome is skipped or mis-ordered)", key_of(dec, f"bubble-id-collides:{norm(a)[:40]}"))
         else:
             raise AnalysisError("R06.10", dec.where(c), f"cannot decide whether the synthetic id `{norm(src)[:60]}` can coincide with a segment name")
+
+
+
+def r06_11(ctx, m):
+    """How the biconnected components enter the collapsed graph, decided path by path through the loop over the components
+    and world by world over (has inner nodes?, number of articulation points): a component with inner nodes becomes one
+    synthetic node linked to every one of its articulation points; one without inner nodes is a bridge: with exactly two
+    articulation points it becomes an edge between them, with any other number the chromosome is given up.  A chromosome
+    that is a single segment gets (bo_start, 0)."""
+    from .. import ordtab as _ot
+    from ..paths import enum_paths as _ep
+
+    dec = m.dec
+    repo = ctx.repo
+    fns = [f_ for f_ in closure(repo, dec, depth=2) if f_.module is dec.module]
+    found = False
+
+    def calls(node, attr):
+        return [c for c in ast.walk(node) if isinstance(c, ast.Call) and isinstance(c.func, ast.Attribute) and c.func.attr == attr]
+
+    for fn in fns:
+        for lp in walk_own(fn.node):
+            if not (isinstance(lp, ast.For) and calls(lp, "add_edge") and calls(lp, "add_node")):
+                continue
+            if any(isinstance(o, ast.For) and o is not lp and any(x is lp for x in ast.walk(o)) and calls(o, "add_node") for o in walk_own(fn.node)):
+                continue
+            # the two sets derived from the component: inner nodes (difference with the articulation points), ends (intersection)
+            ins = ends = None
+            for st in lp.body:
+                if isinstance(st, ast.Assign) and isinstance(st.targets[0], ast.Name):
+                    v = st.value
+                    t = norm(v)
+                    if ".difference(" in t or (isinstance(v, ast.BinOp) and isinstance(v.op, ast.Sub)):
+                        ins = st.targets[0].id
+                    elif ".intersection(" in t or (isinstance(v, ast.BinOp) and isinstance(v.op, ast.BitAnd)):
+                        ends = st.targets[0].id
+            if ins is None or ends is None:
+                continue
+            found = True
+
+            def atom_of(e):
+                t = norm(e)
+                if t in (f"len({ins})", ins):
+                    return "ins"
+                if t in (f"len({ends})", ends):
+                    return "ends"
+                return None
+
+            paths = _ep(lp.body, rule="R06.11", where=fn.where(lp))
+            bad = None
+            n_worlds = 0
+            for has_inner in (0, 1):
+                for n_ends in (0, 1, 2, 3):
+                    env = {"ins": has_inner, "ends": n_ends}
+                    n_worlds += 1
+                    try:
+                        ps = _ot.consistent_paths(paths, env, atom_of, 1)
+                    except _ot.Unsupported as ex:
+                        raise AnalysisError("R06.11", fn.where(lp), f"a test of the component loop is outside the fragment: {ex}")
+                    for p in ps:
+                        nodes_added = [e for e in p.events if e.kind in ("stmt", "loop") and calls(e.node, "add_node")]
+                        edge_events = [e for e in p.events if e.kind in ("stmt", "loop") and calls(e.node, "add_edge")]
+                        gives_up = p.term == "return"
+                        if has_inner:
+                            if gives_up or not nodes_added:
+                                bad = bad or (p, f"a component with inner nodes and {n_ends} articulation point(s) does not become a bubble node")
+                            else:
+                                loops_ = [e.node for e in edge_events if isinstance(e.node, ast.For)]
+                                ok_l = bool(loops_) and norm(loops_[0].iter) == ends and not any(isinstance(x, (ast.If, ast.Continue, ast.Break)) for x in ast.walk(loops_[0])) and norm(loops_[0].target) in [norm(a) for a in calls(loops_[0], "add_edge")[0].args]
+                                if not ok_l:
+                                    bad = bad or (p, "a bubble node is not linked to every articulation point of its component")
+                        elif n_ends == 2:
+                            if gives_up:
+                                bad = bad or (p, "a bridge (no inner nodes, two articulation points) makes the chromosome unorderable")
+                            elif nodes_added:
+                                bad = bad or (p, "a bridge (no inner nodes) is entered as a bubble node")
+                            elif not edge_events:
+                                bad = bad or (p, "a bridge between two adjacent scaffold nodes adds no edge to the collapsed graph: the chain falls apart and the chromosome is skipped")
+                        else:
+                            if not gives_up:
+                                bad = bad or (p, f"a component without inner nodes and {n_ends} articulation point(s) (three scaffold nodes on one cycle for 3) is not turned away")
+            ctx.check(bad is None, "R06.11", fn.where(lp), "components enter the collapsed graph by kind: inner nodes -> bubble node linked to all its articulation points; none and two articulation points -> an edge between them; none and any other number -> the chromosome is given up", key_of(fn, f"bicc-kinds:{bad[1][:60] if bad else ''}"), worlds=n_worlds, paths=len(paths), **({"path": bad[0].show(), "why": bad[1]} if bad else {}))
+            # the edge of a bridge joins its two articulation points
+            for st in walk_stmts(lp.body):
+                if isinstance(st, ast.Assign) and isinstance(st.targets[0], ast.Tuple) and len(st.targets[0].elts) == 2 and ends in names_in(st.value):
+                    pair = {norm(e) for e in st.targets[0].elts}
+                    es = [c for c in calls(lp, "add_edge") if {norm(c.args[0]), norm(c.args[2])} == pair] if all(len(c.args) >= 3 for c in calls(lp, "add_edge")) else []
+                    ctx.check(bool(es), "R06.11", fn.where(st), "the edge of a bridge joins its two articulation points", key_of(fn, f"bridge-edge-ends:{sorted(pair)}"))
+    if not found:
+        raise AnalysisError("R06.11", dec.where(), "cannot find where the biconnected components are entered into the collapsed graph")
+    # single-segment chromosome
+    for r in walk_own(dec.node):
+        if isinstance(r, ast.Return) and isinstance(r.value, ast.Tuple):
+            dicts = [e for e in r.value.elts if isinstance(e, ast.Dict) and len(e.keys) == 1]
+            if dicts:
+                v = dicts[0].values[0]
+                bo_p = dec.params[3] if len(dec.params) > 3 else None
+                ok = isinstance(v, ast.Tuple) and len(v.elts) == 2 and norm(v.elts[0]) == bo_p and const_value(v.elts[1], None) == 0
+                ctx.check(ok, "R06.11", dec.where(r), "a chromosome that is a single segment gets BO = the running counter and NO = 0 (it is a scaffold node)", key_of(dec, f"single-node-order:{norm(v)}"))
